@@ -1,7 +1,8 @@
 (* Property C08: selection returns only members of its input and obeys its dominance rule.
    Statements only; proofs are in Proofs/SelectionProofs.v. *)
 From Coq Require Import ZArith List Bool Arith Permutation.
-From Bingo Require Import Model.Best Model.Selection Model.SelectionProb Proofs.SelectionProofs Proofs.SelectionProbProofs.
+From Bingo Require Import Model.Best Model.Selection Model.SelectionProb Gen.SelRules Proofs.SelectionProofs Proofs.SelectionProbProofs
+  Proofs.SelRulesProofs.
 Import ListNotations.
 Local Open Scope nat_scope.
 
@@ -83,6 +84,32 @@ Theorem C08_probabilistic_crowding_keeps_parent_or_paired_child :
     (sfit par <> None -> sfit ch = None -> nth j out dflt = par).
 Proof. exact pcrowding_spec. Qed.
 Print Assumptions C08_probabilistic_crowding_keeps_parent_or_paired_child.
+
+(* 7. the tie by translation: the decision rules of the models above ARE the rules the current source states
+      (Gen/SelRules.v is regenerated from bingo/selection/*.py on every run by tools/translate/tr_selection.py) *)
+Theorem C08_model_decision_rules_are_the_source_rules :
+  (forall a b, first_not_dominated a b = gen_first_not_dominated a b) /\
+  (forall pop i1 i2 s, update_removal_set pop i1 i2 s = gen_update_removal_set pop i1 i2 s) /\
+  (forall pop i1 i2, streamlined_pair pop i1 i2 = gen_streamlined_pair pop i1 i2) /\
+  (forall child parent, most_fit_det child parent = gen_most_fit_det child parent) /\
+  (forall child parent coins, most_fit_prob child parent coins =
+     match gen_most_fit_prob_guard child parent with
+     | Some x => Ok (x, coins)
+     | None => match coins with
+               | [] => BadTape
+               | None :: _ => Raises
+               | Some c :: r => Ok (gen_most_fit_prob_coin c child parent, r)
+               end
+     end) /\
+  (forall member winner r i best,
+     scan_go (sfit member :: r) i best (sfit winner) =
+     if gen_tournament_takes member winner then scan_go r (S i) i (sfit member) else scan_go r (S i) best (sfit winner)).
+Proof.
+  split; [exact first_not_dominated_is_source|]. split; [exact update_removal_set_is_source|].
+  split; [exact streamlined_pair_is_source|]. split; [exact most_fit_det_is_source|].
+  split; [exact most_fit_prob_is_source|exact scan_step_is_source].
+Qed.
+Print Assumptions C08_model_decision_rules_are_the_source_rules.
 
 (* non-vacuity: concrete runs reach Ok with removals, NaN, ties *)
 Example C08_example :
